@@ -7,4 +7,8 @@ public:
     bool GetOp(const_iterator& pc, opcodetype& opcodeRet, verif_bytes& vchRet) const { return GetScriptOp(pc, end(), opcodeRet, &vchRet); }
     bool GetOp(const_iterator& pc, opcodetype& opcodeRet) const { return GetScriptOp(pc, end(), opcodeRet, 0); }
     bool HasValidOps() const;
+    bool IsPayToScriptHash() const;
+    bool IsPayToWitnessScriptHash() const;
+    bool IsWitnessProgram(int& version, verif_bytes& program) const;
+    static int DecodeOP_N(opcodetype opcode) { if (opcode == OP_0) return 0; __CPROVER_assert(opcode >= OP_1 && opcode <= OP_16, "assert() in btcdeb code: opcode >= OP_1 && opcode <= OP_16"); return (int)opcode - (int)(OP_1 - 1); }
 };
